@@ -79,6 +79,8 @@ struct Stats {
     host_calls: usize,
     with_state: usize,
     escalated: usize,
+    escalation_cap: usize,
+    found_diff: bool,
     distinct: std::collections::HashSet<String>,
 }
 
@@ -126,6 +128,19 @@ fn judge(cases: Vec<Case>, prop: &str, stats: &mut Stats) {
         reqs.push(c.req_out.clone());
     }
     let ans = model::ask(&reqs);
+    // one batch of probes: does the model still predict each output, and is it the elision of the input?
+    let mut probes = vec![];
+    let mut probe_at = vec![];
+    for c in cases.iter() {
+        probe_at.push(probes.len());
+        if let Some((rq, _)) = &c.corr {
+            probes.push(rq.clone());
+        }
+        if let Some(t) = &c.tie {
+            probes.push(t.clone());
+        }
+    }
+    let probe_ans = model::ask(&probes);
     for (i, c) in cases.iter().enumerate() {
         let (oi, oo) = (&ans[2 * i], &ans[2 * i + 1]);
         account(oi, stats);
@@ -152,16 +167,10 @@ fn judge(cases: Vec<Case>, prop: &str, stats: &mut Stats) {
             // the search the brief asks for: when the model no longer predicts this output (or the
             // output is not the elision of the input), look harder for a behavioural difference on
             // this very pair of binaries: many more scripts
-            let mut probes = vec![];
-            if let Some((rq, _)) = &c.corr {
-                probes.push(rq.clone());
-            }
-            if let Some(t) = &c.tie {
-                probes.push(t.clone());
-            }
-            let pa = model::ask(&probes);
+            let n_probes = c.corr.is_some() as usize + c.tie.is_some() as usize;
+            let pa = &probe_ans[probe_at[i]..probe_at[i] + n_probes];
             let suspicious = c.corr.as_ref().map(|(_, ob)| &pa[0] != ob).unwrap_or(false) || c.tie.as_ref().map(|_| pa[pa.len() - 1] != "elide-ok").unwrap_or(false);
-            if suspicious {
+            if suspicious && !stats.found_diff && stats.escalated < stats.escalation_cap {
                 stats.escalated += 1;
                 let reseed = |r: &str, k: u64| -> String {
                     let mut f: Vec<String> = r.splitn(5, ' ').map(|x| x.to_string()).collect();
@@ -196,6 +205,9 @@ fn judge(cases: Vec<Case>, prop: &str, stats: &mut Stats) {
                     key = if c.pass == Pass::Gc { "C06:behaviour-differs-memarg-offset-truncated-to-u32" } else { "C01:behaviour-differs-memarg-offset-truncated-to-u32" };
                 }
             }
+            if !key.contains("memarg-offset-truncated") {
+                stats.found_diff = true;
+            }
             if key.starts_with(prop) || prop.is_empty() {
                 out::oracle(&c.name, false, key, &format!("{} | only: {}", first_diff(oi, oo), c.only));
             } else {
@@ -220,7 +232,8 @@ pub fn exec_cfg(rng: &mut Rng, case: usize) -> GenCfg {
 pub fn main(seed: u64, tier: &str, only: Option<&str>) {
     let prop = std::env::var("VERIF_PROPERTY").unwrap_or_default();
     let mut stats = Stats::default();
-    let (rounds, gas) = (2usize, 40usize);
+    stats.escalation_cap = if tier == "thorough" { 600 } else { 60 };
+    let (rounds, gas) = (2usize, 300usize);
     if let Some(o) = only {
         let f: Vec<&str> = o.split(' ').collect();
         let pass = if f[0] == "Gc" { Pass::Gc } else { Pass::None };
@@ -235,7 +248,13 @@ pub fn main(seed: u64, tier: &str, only: Option<&str>) {
     for case in 0..n {
         let mut rng = Rng::new(seed ^ 0xe8ec, case as u64);
         let g = exec_cfg(&mut rng, case);
-        let (wasm, _) = gen::gen_valid(&mut rng, &g);
+        // every third case: a control-flow shaped module with observable markers
+        let wasm = if case % 3 == 2 { crate::ctrlgen::ctrl_module(&mut rng) } else { gen::gen_valid(&mut rng, &g).0 };
+        if case % 3 == 2 {
+            if let Err(e) = decode::validate(&wasm, decode::walrus_features(false)) {
+                panic!("ctrlgen produced an invalid module: {}", e);
+            }
+        }
         let pass = if prop == "C06" { Pass::Gc } else { Pass::None };
         match prepare(&format!("x{}", case), &wasm, pass, rng.next() % 1000000007, rounds, gas) {
             Ok(c) => batch.push(c),
